@@ -232,7 +232,14 @@ class Reconcile:
 
                 if valf.root is not work_root:  # from different tree, need to verify first
                     try:
+                        child_parent_values = child_parent.a.values
+
                         for i in range(start, end):
+                            if (child_parent_values[j := child_off_idx + i] is not values[i]
+                                or child_parent_keys[j] is not keys[i]
+                            ):  # parent lists changed so indices are stale
+                                raise ValueError('child not at its index in parent')
+
                             if key := keys[i]:
                                 key.f.verify(reparse=False)
 
@@ -316,7 +323,12 @@ class Reconcile:
 
                 if childf.root is not work_root:  # from different tree, need to verify first
                     try:
+                        child_parent_body = getattr(child_parent.a, child_field)
+
                         for i in range(start, end):
+                            if child_parent_body[child_off_idx + i] is not body[i]:  # parent list changed so indices are stale
+                                raise ValueError('child not at its index in parent')
+
                             body[i].f.verify(reparse=False)
 
                         slice = child_parent.get_slice(child_idx, child_off_idx + end, child_field,
@@ -457,6 +469,9 @@ class Reconcile:
         if not (nodef := getattr(node, 'f', None)) or nodef.root is not self.work:  # pure AST if no '.f' or FST from different tree
             if nodef:  # FST from different tree, need to verify it before using
                 try:
+                    if (parent := nodef.parent) and nodef.pfield.get(parent.a) is not node:  # parent changed so location in it is stale, copy() would get whatever is there now
+                        raise ValueError('child not at its location in parent')
+
                     copy = nodef.verify(reparse=False).copy(trivia=self.trivia_fst_get).verify()  # reparse the copy because the links do not show changes to primitives or deletions below
 
                 except Exception:  # verification failed, fall through to pure AST
